@@ -216,8 +216,12 @@ class PairIter:
             raise _Continue()
         elif k == 'decls':
             for v in s['d']:
-                if 'complex' in v['type'] or v['type'] == 'double':
+                vt = v['type'][6:] if v['type'].startswith('const ') else v['type']
+                if 'complex' in vt or vt == 'double':
                     self.scalars[v['id']] = self.amp_expr(v['init'])
+                elif vt in ('bool', 'int'):
+                    # a per-iteration case value: `const bool bitSet = (i & bit) != 0;`
+                    self.cases[v['id']] = self.cond(v['init']) if vt == 'bool' else self.val(v['init'])
                 else:
                     self.local_idx[v['id']] = self.cell(v['init'])
         elif k == 'expr':
